@@ -2,5 +2,5 @@ SPECIFICATION Spec
 CONSTANTS
   MAXCUES = 1
   FAM = "A"
-INVARIANT DecoderCorrect
+INVARIANTS DecoderCorrect ImplRefines
 CHECK_DEADLOCK FALSE
